@@ -429,7 +429,8 @@ func c02Slices() map[string]c02Slice {
 	}
 	return map[string]c02Slice{
 		// maps in maps, plain / repeated / optional variables, one distractor per map
-		"maps": {depth: 2, budget: 2, kinds: kMap, vars: vAny | vScalar | vOpt, maxExtra: 1, nestedExtra: 1, top: kMap, sorts: num},
+		// (scalars here are numbers or null: a present null is a value, not a missing property)
+		"maps": {depth: 2, budget: 2, kinds: kMap, vars: vAny | vScalar | vOpt, maxExtra: 1, nestedExtra: 1, top: kMap, sorts: []int{verif.TF64 | verif.TNil}},
 		// a property variable over a message map with up to two other keys
 		"propvars": {depth: 2, budget: 2, kinds: kMap | kProp, vars: vAny | vScalar, maxExtra: 2, nestedExtra: 0, top: kProp, allPos: true, sorts: num},
 		// flat arrays: constants, the array variable, scalar and structured distractors at every position
